@@ -32,8 +32,10 @@ Inductive case :=
 (* addResponseHeaders: values of Strict-Transport-Security on the response afterwards *)
 | CResp (cfg : config) (tls : bool) (impl : list str)
 (* HTTPProxy.ServeHTTP end to end: header map received by the upstream (recording
-   RoundTripper / loopback upstream for websocket), STS values at the client *)
-| CServe (cfg : config) (t : target) (uuid : str) (r : request) (impl : outcome (hmap * list str)).
+   RoundTripper / loopback upstream for websocket), STS values at the client; [uhost] = the
+   Host the upstream received (the host= rewrite, which runs after addHeaders) *)
+| CServe (cfg : config) (t : target) (uuid : str) (r : request) (impl : outcome (hmap * list str))
+         (uhost : str).
 
 Definition peer_of (r : request) : str := match r_peer r with Some p => p | None => [] end.
 
@@ -93,7 +95,7 @@ Definition check_case (c : case) : N :=
           (* addHeaders does not act upon Connection, so region 4 cannot apply at this
              level: the clauses are evaluated against the client map without Connection *)
           let clf up := if cfg_sane cfg
-                        then clauses cfg (hdel hdr K_CONN) (peer_of r) (r_host r) (is_tls r) false (is_ws hdr) up
+                        then clauses cfg (hdel hdr K_CONN) (peer_of r) (r_host r) (is_tls r) (is_ws hdr) up
                         else [] in
           judge (hmap_eqb hi hm) (clf hi) (clf hm)
                 (if cfg_sane cfg then map (fun k => veq (hfind hi k) (hfind hm k)) (clause_keys cfg) else []) true
@@ -106,21 +108,21 @@ Definition check_case (c : case) : N :=
   | CResp cfg tls impl =>
       let m := match add_response_headers cfg tls with Some v => [v] | None => [] end in
       verdict (list_eqb beq impl m) (cl_sts cfg tls impl) None tls
-  | CServe cfg t uuid r impl =>
+  | CServe cfg t uuid r impl uhost =>
       let m := serve cfg t uuid r in
       match impl, m with
       | Ok (hi, si), Ok (hm, sm) =>
           let hdr := r_hdr r in
           let same := hmap_eq_on (managed_keys cfg) hi hm &&
-                      list_eqb beq si (match sm with Some v => [v] | None => [] end) in
+                      list_eqb beq si (match sm with Some v => [v] | None => [] end) &&
+                      match upstream_host cfg t uuid r with Ok uh => beq uhost uh | _ => false end in
           let clf up := if cfg_sane cfg
-                        then clauses cfg hdr (peer_of r) (r_host r) (is_tls r)
-                                     (F_host_rewrite t (r_host r)) true up
+                        then clauses cfg hdr (peer_of r) (r_host r) (is_tls r) true up
                         else [] in
           judge same (clf hi) (clf hm)
                 (if cfg_sane cfg then map (fun k => veq (hfind hi k) (hfind hm k)) (clause_keys cfg) else [])
                 (cl_sts cfg (is_tls r) si)
-                (negb (no_region cfg t hdr (r_host r))) (forged cfg hdr)
+                (negb (no_region cfg hdr)) (forged cfg hdr)
       | Err _, Err _ => verdict true (match r_peer r with None => true | _ => false end) None false
       | Panic, Panic => v_model_spec_fails
       | Panic, _ => v_disagree_spec_fails
